@@ -356,7 +356,8 @@ impl Session {
                 CLOCK.with(|c| c.set((v[0], v[1], v[2], v[3], v[4], v[5], v[6])));
                 Ok(Res::Ok(String::new()))
             }
-            "format" => {
+            // format_again: a retry on the SAME storage object - its position is left where the previous call put it
+            "format" | "format_again" => {
                 // format <bps|-> <total_sectors|-> <bpc|-> <fat 12|16|32|-> <root_entries|-> <fats|-> <media|-> <volid|-> <label hex11|->
                 let mut o = fatfs::FormatVolumeOptions::new();
                 if let Some(v) = opt::<u16>(arg(1)?) {
@@ -392,7 +393,9 @@ impl Session {
                     l.copy_from_slice(&lab);
                     o = o.volume_label(l);
                 }
-                self.dev.borrow_mut().pos = 0;
+                if t[0] == "format" {
+                    self.dev.borrow_mut().pos = 0;
+                }
                 let mut d = Dev(self.dev.clone());
                 fres!(fatfs::format_volume(&mut d, o), |_| String::new())
             }
